@@ -16,6 +16,7 @@ import os
 import re
 
 from .c22 import module_statics
+from .lib import cond as CD
 from .lib import sym as S
 from .lib import thir as T
 from .lib.sym import fmt
@@ -266,6 +267,67 @@ def run(run):
         want = ["compute_function_signatures", "compute_pointer_inference", "compute_string_abstraction"]
         have = sorted(first, key=lambda k: first[k])
         run.check("R2", "analysis-order", have == want, "function signatures must be computed before pointer inference and pointer inference before string abstraction; order is %s" % have, msite)
+        # prerequisites between the analyses themselves: string abstraction consumes (and unwraps) the pointer-inference result and
+        # pointer inference the function signatures, so "B is computed" must imply "A is computed"
+        from .lib import numflow as NF
+        flow = NF.Flow(C, main)
+
+        def guard_disjuncts(node, depth=0):
+            """atoms of a guard: variable ids and opaque expression texts, through immutable lets and `||`"""
+            n = T.peel(node)
+            if n.get("k") in ("Var", "Upvar"):
+                d = flow.definition(n)
+                if d is not n and d.get("k") != n.get("k") and depth < 6:
+                    return {("var", n["id"])} | guard_disjuncts(d, depth + 1)
+                return {("var", n["id"])}
+            if n.get("k") == "Logical" and n.get("o") == "Or":
+                return guard_disjuncts(n["l"], depth + 1) | guard_disjuncts(n["r"], depth + 1)
+            # `modules.iter().any(|m| TABLE.contains(&m.name))` or a helper closure applied to &TABLE: the table decides
+            names = set()
+            for y in T.walk(n):
+                if y.get("k") in ("Var", "Upvar") and y.get("n") in tables:
+                    names.add(y["n"])
+                if y.get("k") == "Closure":
+                    try:
+                        for z in T.walk(C.closure_by_path(y["d"])["body"]):
+                            if z.get("k") in ("Var", "Upvar") and z.get("n") in tables:
+                                names.add(z["n"])
+                    except T.AnchorMissing:
+                        pass
+            if len(names) == 1 and any(T.is_call(y, ("any", "contains")) or y.get("k") == "Call" for y in T.walk(n)):
+                return {("table", list(names)[0])}
+            return {("expr", id(n))}
+        guards = {}
+        for name in ("compute_function_signatures", "compute_pointer_inference", "compute_string_abstraction"):
+            for x, conds in T.paths_to(main["body"], lambda y: T.is_call(y, name)):
+                ifs = [c for c in conds if c[0] == "if" and c[2] is True]
+                # innermost guard decides whether the analysis runs
+                guards[name] = ifs[-1][1] if ifs else None
+                break
+        for a_fn, b_fn, why in (("compute_pointer_inference", "compute_string_abstraction", "compute_string_abstraction unwraps the pointer-inference result it is given"),
+                                ("compute_function_signatures", "compute_pointer_inference", "the pointer inference reads the function signatures")):
+            key = "implies|%s=>%s" % (b_fn.replace("compute_", ""), a_fn.replace("compute_", ""))
+            if a_fn not in guards or b_fn not in guards:
+                run.undecided("R2", key, "call not found", msite)
+                continue
+            ga, gb = guards[a_fn], guards[b_fn]
+            if ga is None:
+                run.holds("R2", key, "%s is computed unconditionally" % a_fn, msite)
+                continue
+            if gb is None:
+                run.violated("R2", key, "%s always runs but %s only under a condition (%s)" % (b_fn, a_fn, why), msite)
+                continue
+            da, db = guard_disjuncts(ga), guard_disjuncts(gb)
+            top_b = {d for d in db if d[0] == "var"} or db
+            ta = set().union(*[tables[d[1]] for d in da if d[0] == "table"]) if any(d[0] == "table" for d in da) else set()
+            tb_atoms = [d for d in db if d[0] == "table"]
+            tables_imply = bool(tb_atoms) and all(tables[d[1]] <= ta for d in tb_atoms) and not any(d[0] == "expr" for d in db)
+            if top_b & da or tables_imply:
+                run.holds("R2", key, "", msite)
+            elif not any(d[0] == "expr" for d in da | db):
+                run.violated("R2", key, "%s runs when `%s` holds, %s only when `%s` holds, and the second condition does not contain the first: a selection that needs only %s makes the run panic (%s)" % (b_fn, T.show(gb)[:60], a_fn, T.show(ga)[:60], b_fn.replace("compute_", ""), why), C.loc(ga))
+            else:
+                run.undecided("R2", key, "guards %s / %s" % (T.show(ga)[:50], T.show(gb)[:50]), msite)
         # each result is attached with the matching with_* call using the matching result
         for comp, wit in (("compute_function_signatures", "with_function_signatures"), ("compute_pointer_inference", "with_pointer_inference"), ("compute_string_abstraction", "with_string_abstraction")):
             ws = [x for x in S.subterms(mt) if is_call(x, wit)]
